@@ -714,13 +714,15 @@ def errors_multiset(errs, dedup_locs=False):
     return sorted(err_key(e, dedup_locs) for e in errs)
 
 
-def run_impl(schema, document, variables, opname, validate=True):
+def run_impl(schema, document, variables, opname, validate=True, entry=None):
     """Execute on the real code. Returns a canonical dict:
-       {"data": ..., "errors": [...]} | {"abort": kind} | {"internal": class name} | {"invalid": n}"""
+       {"data": ..., "errors": [...]} | {"abort": kind} | {"internal": class name} | {"invalid": n}
+       `entry` (optional, default graphql_blocking): another entry point with the same keyword interface returning a
+       GraphQLResult (process_graphql_query on the blocking runtime, a driver of `graphql` on an asyncio loop, ...)"""
     from py_gql import graphql_blocking
     from py_gql.exc import (GraphQLSyntaxError, ValidationError, ExecutionError, VariableCoercionError)
     try:
-        r = graphql_blocking(schema, document, variables=variables, operation_name=opname)
+        r = (entry or graphql_blocking)(schema, document, variables=variables, operation_name=opname)
     except ResolverMixup:
         return {"internal": "ResolverOfAnotherFieldCalled"}
     except ArgumentLeak:
